@@ -70,8 +70,8 @@ PROPS = {
         explanation='THEOREM (group c01, theorem_c09_plain / theorem_c09_typed, on lemma_parse_canon_gen of group inverse): for ANY builder state (arbitrary field texts; qualifier list satisfying the invariant every verified mutator keeps) whose build() -- hook relation + build_post -- succeeded with value g, parse_post applied to canon_spec(g) allows only Ok values with the same type, name, version and qualifier pairs, the namespace after dropping empty segments (sig_ns) and the subpath after dropping the segments that are empty, . or .. (sig_sub); for maven the namespace keeps a significant segment. The other clauses of the statement are the contracts of the functions themselves. Pieces: Proved (Verus): every setter sets its field and leaves every other field unchanged (frames => override and commutation), with_qualifier accepts exactly valid keys with the whole-content postcondition of insert, build() succeeds / fails as stated (build_post), Display == canon_spec. ALSO proved (group inverse): parsing canon_spec of normalised parts returns those parts (lemma_parse_canon), of arbitrary parts the significant segments (lemma_parse_canon_gen). CROSS-CHECK (bounded, compiled code): the same for parts that are not normalised (insignificant namespace / subpath segments set through the builder) and end to end on the compiled code -- all call sequences of length <= 2 / 3 over a value universe, and every scalar value in every field.'),
     'C10': dict(level='proof', groups=['builder', 'purl', 'lib_lower', 'pkgtype', 'cksum', 'c01', 'ckfix', 'lib_shape'], kani=[], bounded=['tokens:C10', 'scale:C10', 'spell:C10', 'builder', 'pkgrules'] + A,
         explanation='THEOREM (group c01, theorem_c10_plain + lemma_parsed_is_handed_out): for the built-in string shapes and every value that satisfies what C04 says of handed-out values (shown for parsed values from parse_post alone and for built values from the hook relation and build_post alone; the checksum text is a fixpoint by theorem_checksum_rebuild), build() applied to the value\'s own type and parts succeeds and returns the same type text, the very same parts and the same canonical string; theorem_c10_typed + lemma_built_is_handed_out_typed: the same for PackageType (the name already obeys the rule, so the hook changes nothing). Pieces: Proved (Verus): into_builder moves type and parts unchanged, build() = hook + generic clean-up (build_post), name rules are the specification functions lower_seq / pypi_norm, checksum text = canon_text. BOUNDED: idempotence of the whole pipeline on produced values -- every accepted T_N / S string and every built value is re-built and compared.'),
-    'C11': dict(level='other', groups=['qual'], kani=['key_char'], bounded=['qualmap', 'preds'] + A,
-        explanation='Proved (Verus) for all strings and all contents: key validity and lower-casing, comparator total (never None), search, get, contains_key, insert, remove, clear, '
+    'C11': dict(level='proof', groups=['qual'], kani=['key_char'], bounded=['qualmap', 'preds'] + A,
+        explanation='Every operation the statement lists is under contract with a whole-content postcondition over the stored sequence, whose invariant (valid lower-case keys, strictly ascending) makes it the sorted listing of a key -> value map: construction from pairs (try_from_iter, for every finite lawful iterator: accepted iff all keys valid and pairwise different up to ASCII case), insert, the entry API (entry, or_insert, or_insert_with, and_modify, Occupied / Vacant operations), get, get_mut, Index / IndexMut (documented panic = precondition), remove, clear, both ends of the iterator and its length, the typed accessors; lemma_wf_content_unique: two sequences satisfying the invariant with the same key -> value content are the same sequence of texts (so the derived ==, hash and order see the content only). ASSUMED (one std call each, FnMut closures / slice::IterMut are outside Verus): retain, retain_mut (Vec::retain removes exactly what the predicate rejects and keeps the order), iter_mut (keys are handed out as shared references, so only values can change); derived Eq / Hash / Ord are field-wise. The qualmap suite (every reachable content over a key universe x every operation, to a fixpoint, plus SCALE contents) remains as a cross-check on the compiled code. Pieces: Proved (Verus) for all strings and all contents: key validity and lower-casing, comparator total (never None), search, get, contains_key, insert, remove, clear, '
                     'entry, VacantEntry::insert, OccupiedEntry::{get,get_mut,into_mut,insert,remove,remove_entry}, get_mut, insert_typed, remove_typed each preserve the invariant '
                     'and have whole-content postconditions (named position pos_of, no existential). retain / iterators / try_from_iter / Eq-Hash-Ord are BOUNDED: every reachable '
                     'content over a universe x every operation against a BTreeMap, to a fixpoint.'),
